@@ -42,8 +42,11 @@ def copier_rules(prog, res):
                   "a sequence can be stored without (successful) validation although validateSequences is set")
         # (2) the validated values are the stored ones
         a = vc["a"]
-        same = strip_casts(a[0]).get("n") == OFF and strip_casts(a[1]).get("n") == ML
-        res.check(same, R, name + ":validates-what-it-stores", "%s:%s" % (f.file, vc.get("l")), "offBase and matchLength validated are the ones stored", "validation looks at other values than the ones stored")
+        # the stored offBase may have been folded into a repcode; the validated value is the caller's offset it derives from
+        # (an earlier version of this rule demanded the very same variable, which the repaired code no longer satisfies)
+        offsrc = {x for x in f.anchors(a[0], depth=3) if x.startswith("f:offset")}
+        same = bool(offsrc) and offsrc <= f.anchors(sc["a"][4], depth=3) and strip_casts(a[1]).get("n") == ML
+        res.check(same, R, name + ":validates-what-it-stores", "%s:%s" % (f.file, vc.get("l")), "the offset validated is the one the stored offBase derives from; matchLength validated is the one stored", "validation looks at other values than the ones stored")
         an = [f.anchors(x, depth=1) for x in a]
         ok = "f:minMatch" in an[2] and "f:posInSrc" in an[3] and "f:windowLog" in an[4] and ("f:dictContentSize" in f.anchors(a[5], depth=3) or "f:dictSize" in f.anchors(a[5], depth=3))
         res.check(ok, R, name + ":validation-arguments", "%s:%s" % (f.file, vc.get("l")), "minMatch, posInSrc, windowLog and the dictionary size are passed in their positions", "validation arguments changed")
@@ -258,6 +261,75 @@ def wide_length_arithmetic(prog, res):
     res.need(R, 4)
 
 
+COPIERS = ("ZSTD_copySequencesToSeqStoreExplicitBlockDelim", "ZSTD_copySequencesToSeqStoreNoBlockDelim")
+
+
+def validated_quantities(prog, res):
+    """What the validator is given, and what the extractor reports:
+    (supplied-offset) ZSTD_validateSequence bounds an OFFSET; a repcode passes it unconditionally.  Its offset argument
+    must derive from the offset field of the caller's ZSTD_Sequence and not from ZSTD_finalizeOffBase(), which folds an
+    offset equal to a history entry into a repcode;
+    (per-frame dictionary size) cctx->prefixDict is single-use: ZSTD_CCtx_init_compressStream2 clears it when the frame
+    starts.  Nothing that runs inside a frame may read it (the size of the dictionary in use is cctx->dictContentSize);
+    (full literal length) the sequence store keeps 16-bit lengths plus one long-length marker: a zero test of a stored
+    litLength decides `ll0` correctly only together with a test against the long-length position."""
+    R = "T9.validated-quantities"
+    for name in COPIERS:
+        f = prog.fn(name)
+        calls = [c for b, i, c in f.calls("ZSTD_validateSequence")]
+        res.check(len(calls) == 1, R, name + ":validator-call", f.loc, "one validator call", "validator calls: %d" % len(calls))
+        for c in calls:
+            anc = f.anchors(c["a"][0], depth=3)
+            ok = "f:offset" in anc and "c:ZSTD_finalizeOffBase" not in anc
+            res.check(ok, R, name + ":supplied-offset", "%s:%s" % (f.file, c.get("l")),
+                      "the validated offset derives from ZSTD_Sequence.offset and not from ZSTD_finalizeOffBase()",
+                      "the offset handed to ZSTD_validateSequence went through ZSTD_finalizeOffBase(): an out-of-range offset that equals "
+                      "an entry of the repcode history is folded into a repcode, passes validation, and the frame cannot be decoded")
+            anc5 = f.anchors(c["a"][5], depth=3)
+            res.check("f:prefixDict" not in anc5 and ("f:dictContentSize" in anc5), R, name + ":dictionary-size", "%s:%s" % (f.file, c.get("l")),
+                      "the dictionary size is the frame's recorded dictContentSize",
+                      "the dictionary size used for validation does not come from the frame's recorded dictContentSize (cctx->prefixDict is "
+                      "already cleared inside a frame: a valid parse reaching into a prefix is refused)")
+    # who may read cctx->prefixDict: only the functions that run before / while a frame is initialised
+    allowed = {"ZSTD_CCtx_refPrefix_advanced", "ZSTD_CCtx_init_compressStream2", "ZSTD_clearAllDicts", "ZSTD_CCtx_loadDictionary_advanced",
+               "ZSTD_CCtx_refCDict", "ZSTD_CCtx_refPrefix"}
+    readers = set()
+    for g in prog.fns_in("compress/zstd_compress.c"):
+        if any(x.get("k") == "mem" and x.get("f") == "prefixDict" and x.get("rec") == "ZSTD_CCtx_s" for _, _, r in g.roots() for x in walk(r)):
+            readers.add(g.name)
+    res.check(bool(readers) and readers <= allowed, R, "prefixDict:readers", "lib/compress/zstd_compress.c",
+              "cctx->prefixDict is only touched by %s" % sorted(readers),
+              "cctx->prefixDict (single-use, cleared when a frame starts) is read by %s" % sorted(readers - allowed))
+    # zero tests of a stored (16-bit) literal length
+    n = 0
+    for g in prog.fns_in("compress/zstd_compress.c", "compress/zstd_compress_superblock.c"):
+        for b, i, r in g.roots():
+            for x in walk(r):
+                if x.get("k") != "bin" or x.get("op") not in ("==", "!="):
+                    continue
+                l, rr = strip_casts(x["lhs"]), strip_casts(x["rhs"])
+                for a, z in ((l, rr), (rr, l)):
+                    if a.get("k") == "mem" and a.get("f") == "litLength" and a.get("rec") == "seqDef_s" and const_val(z) == 0:
+                        n += 1
+                        # the enclosing root must also consult the long-length position
+                        ok = False
+                        for _, _, r2 in g.roots():
+                            for y in walk(r2):
+                                if y.get("k") == "bin" and y.get("op") == "&&":
+                                    inner = list(g.walk_resolved(y))
+                                    if any(z.get("id") == x.get("id") for z in inner) and any(
+                                            z.get("k") == "bin" and z.get("op") in ("==", "!=") and z.get("id") != x.get("id") and
+                                            "f:longLengthPos" in g.anchors(z, depth=3) for z in inner):
+                                        ok = True
+                        res.check(ok, R, "%s:stored-litLength-zero-test@%s" % (g.name, x.get("l") or r.get("l")), g.loc,
+                                  "the zero test of the stored litLength is combined with the long-length position",
+                                  "%s decides `litLength == 0` on the 16-bit stored field alone: a literal run of exactly 65536 bytes is stored as 0 "
+                                  "with the long-length marker, the repcode history is rotated as for a zero-literal sequence and following "
+                                  "repcodes resolve to wrong offsets" % g.name)
+    res.count("stored_litLength_zero_tests", n)
+    res.need(R, 7)
+
+
 def run(tier):
     res = Result("C17", tier)
     tus, info = extract(["compress", "common"])
@@ -268,6 +340,7 @@ def run(tier):
     ordering_rules(prog, res)
     producer_rules(prog, res)
     wide_length_arithmetic(prog, res)
+    validated_quantities(prog, res)
     # frozen guards of lib/compress for the error codes this property owns (shared inventory, split by code)
     import json as _json, os as _os
     from ..rules import guards as _guards
